@@ -413,6 +413,17 @@ class SimExecutor:
         s.emit("teesubmit", w.idx)
         return w.future
 
+    def map(self, fn, *iterables, timeout=None, chunksize=1):
+        """as concurrent.futures.Executor.map: every call is submitted at once; the results (and the exceptions)
+        only surface when the returned iterator is consumed"""
+        futs = [self.submit(fn, *args) for args in zip(*iterables)]
+
+        def results():
+            for f in futs:
+                yield f.result()
+
+        return results()
+
     def active(self):
         return sum(1 for w in self.jobs if w.state in ("parked", "running"))
 
